@@ -11,10 +11,14 @@
 (*             (RegroupSession.tla): o.init = the store as first observed, o.steps = per step the  *)
 (*             call, the exception class or "", the whole store observed again after the step      *)
 (*             (the result last) and for unlist the real cmp of adjacent key cells of the result.  *)
-EXTENDS RegroupSession, Batch
+(*   scale   : a call chain on a BIG table that is described, not listed (RegroupBig.tla): o.sc =  *)
+(*             pattern, copies, mode, odd row and its position; o.via = listby | groupby | pivot |  *)
+(*             wide (pivot with the ids as y, then unpivot); judged by the scaling law, linear time *)
+EXTENDS RegroupBig, Batch
 
 Verdict(o) ==
     IF o.op = "session" THEN SessionVerdict(o)
+    ELSE IF o.op = "scale" THEN ScaleVerdict(o)
     ELSE IF o.op = "pivot" /\ LabelClash(o.t, o.x, o.y) THEN ""          \* outside the domain: two columns of one name
     ELSE IF o.raised # "" THEN o.stage \o "_raises"            \* stage = the call of the chain that raised
     ELSE IF o.after # o.t THEN "operand_changed"
